@@ -56,9 +56,40 @@ pub struct Case {
 }
 
 /// Hand-shaped Thrift documents: (what it is about, files; the first file is the main one).
+/// Type cycles closed through `pilota.rust_wrapper_arc` fields, one member of which holds a map:
+/// several groups behind a varying number of unrelated items, so that the cycle is entered from
+/// either side.
+fn arc_cycle_text() -> String {
+    let mut t = String::from("namespace rs demo.arcs\n");
+    for g in 0..10 {
+        for k in 0..(g % 4) {
+            t.push_str(&format!("struct Pad{g}x{k} {{}}\n"));
+        }
+        if g % 2 == 0 {
+            t.push_str(&format!("enum En{g} {{ A = 1, B = 2 }}\nunion Un{g} {{ 1: i32 only }}\n"));
+        }
+        t.push_str(&format!("struct A{g} {{ 1: optional B{g} b (pilota.rust_wrapper_arc=\"true\") }}\n"));
+        t.push_str(&format!("struct H{g} {{ 1: optional i32 n, 2: optional map<i32, i32> m }}\n"));
+        if g % 3 == 0 {
+            t.push_str(&format!("struct Fill{g} {{}}\n"));
+        }
+        t.push_str(&format!("struct B{g} {{ 1: optional A{g} a (pilota.rust_wrapper_arc=\"true\"), 2: optional H{g} h (pilota.rust_wrapper_arc=\"true\") }}\n"));
+        t.push_str(&format!("struct C{g} {{ 1: optional A{g} a, 2: list<B{g}> bs (pilota.rust_wrapper_arc=\"true\") }}\n"));
+    }
+    t
+}
+
 pub fn thrift_text_docs() -> Vec<(&'static str, Vec<(String, String)>)> {
     let f = |n: &str, t: &str| (n.to_string(), t.to_string());
     vec![
+        ("type cycles closed through Arc-wrapped fields next to a member that cannot derive Hash / Ord", vec![f("arcs.thrift", &arc_cycle_text())]),
+        (
+            "names that collide after case conversion in chains (a kept spelling equals the converted form of a third name)",
+            vec![f(
+                "chain.thrift",
+                "namespace rs demo.chain\nunion U { 1: i32 id, 2: i32 ID, 3: i32 i_d }\nunion V { 1: i32 i_d, 2: string ID, 3: bool id, 4: i64 I_D }\nstruct ab {}\nstruct AB {}\nstruct a_b { 1: U u, 2: optional V v }\nenum ex { A = 1 }\nenum EX { A = 1 }\nenum e_x { A = 1 }\nstruct Holder { 1: ab x, 2: AB y, 3: a_b z, 4: ex e1, 5: EX e2, 6: e_x e3 }\n",
+            )],
+        ),
         (
             "type cycles through containers next to members that cannot derive Hash / Ord",
             vec![f(
